@@ -46,7 +46,8 @@ class C03(common.Prop):
                  4: 'bond order is neither the annotated order nor 1.5 for an aromatic-aromatic bond',
                  5: 'a descriptor was used for more bonds than it was written',
                  6: 'fewer bonds than the edge order although a compatible pair was left',
-                 9: 'implementation raised an unexpected exception'}
+                 9: 'implementation raised an unexpected exception',
+                 107: 'a fragment template does not carry the descriptors its text writes, on the atoms it writes them after'}
 
     def corpus(self, ctx):
         return [
@@ -68,8 +69,9 @@ class C03(common.Prop):
             base, _ = gens.rand_base_graph(rng, names, nmax=5, max_order=3)
             kinds = rng.choice(['$$$><', '$', '><', '$$><!'])
             labels = rng.choice([('',), ('', 'A'), ('', '', 'A', 'B', '1')])
-            frs = gens.rand_fragment_set(rng, names, all_atom=aa, max_desc=4, kinds=kinds, labels=labels)
-            out.append({'s': base + '.' + frs, 'legacy': rng.random() < 0.6, 'aa': aa})
+            expect = {}
+            frs = gens.rand_fragment_set(rng, names, all_atom=aa, max_desc=4, expect=expect, kinds=kinds, labels=labels)
+            out.append({'s': base + '.' + frs, 'legacy': rng.random() < 0.6, 'aa': aa, 'written': expect})
         return out
 
     def run_impl(self, case):
@@ -109,6 +111,13 @@ class C03(common.Prop):
         if any(not isinstance(o, int) or isinstance(o, bool) or o < 0 for _, _, o in rec['edges']):
             return {'skip': 'non-integer base order'}
         out = {'edges': rec['edges'], 's0': rec['s0'], 'arom': rec['arom']}
+        # what the fragment reader attached to the templates (clause "each bonded atom carried a descriptor")
+        try:
+            fd = resolver.fragment_dicts[0]
+            out['templates'] = {nm: {str(n): list(b) for n, b in nx.get_node_attributes(g, 'bonding').items()}
+                                for nm, g in fd.items()}
+        except Exception:
+            pass
         if 'bonds' in rec:
             own = rec['owner']
             out['bonds'] = [[own[u], own[v], u, v, d[0], d[1], o] for u, v, d, o in rec['bonds']]
@@ -164,6 +173,18 @@ class C03(common.Prop):
                            for ts in s1.get(b, {}).values() for t in ts)
                 if left:
                     return 6
+        return 0
+
+    def extra_fail(self, case, impl):
+        # the descriptors the templates carry must be the ones the fragment text writes, on the atoms it
+        # writes them after (generator-known; search side only)
+        written = case.get('written')
+        if not written or 'templates' not in impl:
+            return 0
+        for nm, exp in written.items():
+            got = {k: v for k, v in impl['templates'].get(nm, {}).items() if v}
+            if {k: v for k, v in exp.items() if v} != got:
+                return 107
         return 0
 
     def nontrivial(self, case, impl):
